@@ -5,6 +5,8 @@ from . import vbuild
 
 VERIF = vbuild.VERIF
 NCPU = min(16, os.cpu_count() or 1)
+REPLAYS = os.environ.get('VERIF_REPLAYS', os.path.join(VERIF, 'replays'))
+EVIDENCE = os.environ.get('VERIF_EVIDENCE', os.path.join(VERIF, 'evidence'))
 JHDR = struct.Struct('<II24s4QQ')   # magic, datalen, campaign, aux[4], seq
 
 
@@ -90,8 +92,8 @@ def merge_hashfiles(files):
 def run_property(prop, spec, tier, seed, replay=None):
     """spec: dict with keys jobs(tier, seed) -> [Job], level, rule, assumptions, technique"""
     t0 = time.time()
-    os.makedirs(os.path.join(VERIF, 'evidence'), exist_ok=True)
-    os.makedirs(os.path.join(VERIF, 'replays'), exist_ok=True)
+    os.makedirs(EVIDENCE, exist_ok=True)
+    os.makedirs(REPLAYS, exist_ok=True)
     jobs = spec['jobs'](tier, seed)
     targets = {}
     for j in jobs:
@@ -141,7 +143,7 @@ def run_property(prop, spec, tier, seed, replay=None):
             if j.kind == 'driver':
                 cmd += ['--prop', prop, '--tier', tier, '--seed', str(seed), '--shard', '%d/%d' % (s, j.shards),
                         '--out', os.path.join(work, 'stats-%s.json' % tag), '--journal', os.path.join(work, 'journal-%s' % tag),
-                        '--faildir', os.path.join(VERIF, 'replays'), '--hashfile', os.path.join(work, 'hash-%s.bin' % tag)] + j.args
+                        '--faildir', REPLAYS, '--hashfile', os.path.join(work, 'hash-%s.bin' % tag)] + j.args
             else:
                 cmd += j.args
             procs.append({'job': j, 'shard': s, 'tag': tag, 'cmd': cmd})
@@ -216,7 +218,7 @@ def run_property(prop, spec, tier, seed, replay=None):
                 failures.append((None, 'crash-outside-case rc=%s: %s' % (p['rc'], logtail[-800:]), j))
             else:
                 h = hashlib.sha1(jr['data'] + jr['campaign'].encode() + repr(jr['aux']).encode()).hexdigest()[:16]
-                path = os.path.join(VERIF, 'replays', '%s-crash-%s.case' % (prop, h))
+                path = os.path.join(REPLAYS, '%s-crash-%s.case' % (prop, h))
                 first = ''
                 for line in logtail.splitlines():
                     if 'ERROR:' in line or 'runtime error' in line or 'Assertion' in line or 'WATCHDOG' in line or 'WARNING: ThreadSanitizer' in line:
@@ -238,10 +240,13 @@ def run_property(prop, spec, tier, seed, replay=None):
         seen.add(path)
         confirmed = 0
         for _ in range(3):
-            r = subprocess.run([vbuild.binpath(j.flavour, j.replay_bin), '--prop', prop, '--replay', path],
-                               stdout=subprocess.PIPE, stderr=subprocess.STDOUT, env=san_env(j.flavour), cwd=VERIF, timeout=300)
-            if r.returncode != 0:
-                confirmed += 1
+            try:
+                r = subprocess.run([vbuild.binpath(j.flavour, j.replay_bin), '--prop', prop, '--replay', path],
+                                   stdout=subprocess.PIPE, stderr=subprocess.STDOUT, env=san_env(j.flavour), cwd=VERIF, timeout=300)
+                if r.returncode != 0:
+                    confirmed += 1
+            except subprocess.TimeoutExpired:
+                confirmed += 1   # a replay that does not return within 5 minutes reproduces a hang
         if confirmed == 0:
             unconfirmed.append(path); continue
         key = case_key(path)
@@ -265,7 +270,7 @@ def run_property(prop, spec, tier, seed, replay=None):
     }
     ev = {'property_id': prop, 'tier': tier, 'seed': seed, 'level': spec['level'], 'coverage': cov,
           'assumptions': spec['assumptions'], 'wall_s': round(wall, 2), 'violations': len(violations)}
-    with open(os.path.join(VERIF, 'evidence', prop + '.json'), 'w') as f:
+    with open(os.path.join(EVIDENCE, prop + '.json'), 'w') as f:
         json.dump(ev, f, indent=1)
     print('%s %s seed=%d: %d cases, %d distinct non-trivial, %d skipped, %.1fs (build %.1fs)%s' % (
         prop, tier, seed, agg['evaluations'], distinct_nt, agg['skipped'], wall, bt, '  [partly inconclusive]' if agg['inconclusive'] else ''))
